@@ -344,6 +344,29 @@ func discharge(obls []*Obligation, o *options) float64 {
 		}
 	}
 	dischargeSet(proofs, o)
+	// Obligations that no solver decided within the time limit are tried once more, one at a time and with twice the
+	// time, after the parallel phase: fourteen solver processes per check compete for the cores, and a non-linear
+	// obligation that takes 3 s alone can exceed the limit only because of that. (More time, same query: this cannot
+	// turn a failing obligation into a passing one unless a solver proves it.)
+	retried := 0
+	for _, ob := range proofs {
+		if retried >= 4 {
+			break
+		}
+		if ob.Status != "failed" || ob.Script == nil || !strings.Contains(ob.Result.Answer, "timeout") {
+			continue
+		}
+		if strings.HasPrefix(ob.Result.Solver, "govc") {
+			continue
+		}
+		retried++
+		res, all := Solve(ob.query(false), o.tier, 2*o.timeout, ob.Name+".retry")
+		if res.Answer == "unsat" {
+			res.Solver += "+serial-retry"
+			ob.Result, ob.All = res, all
+			ob.Status = "discharged"
+		}
+	}
 	// A failed obligation must not be assumed by the obligations after it (it could make them
 	// vacuously true): re-check the later obligations of the same function without those facts.
 	failedBy := map[*Script]map[int]bool{}
